@@ -30,6 +30,12 @@ def decl_specs(tier):
             specs.append({'names': [c], 'wrapper': 'a', 'opts': opts})
             specs.append({'names': ['i1', c], 'wrapper': 'b', 'opts': opts})
     specs.append({'embed': True, 'names': []})
+    # size ladder: the NUL default of a constant-size byte string of every size up to 130 and of selected larger ones
+    for n in list(range(3, 131)) + [255, 256, 257, 300, 512, 1000, 4096, 4097, 8192, 8193, 65535, 65536]:
+        for o in ({}, {'generate_for_pack': False, 'generate_for_unpack': False}):
+            if o and n not in (4, 16, 17, 64, 65, 256, 257, 300, 4097):
+                continue
+            specs.append({'P': ir.PKT('K', [('a', ir.I(1)), ('d', ir.D(ir.C(n))), ('z', ir.I(2, default=7))], **o), 'tag': 'Data(%d)' % n})
     for proto in PROTOS:
         for place in PLACEMENTS:
             for opts in ({}, {'generate_for_pack': False, 'generate_for_unpack': False}):
